@@ -90,7 +90,7 @@ class Encoder:
         self.ring = P.Ring(max_terms)
         self.free = set(free)
         self.free_all = free_all
-        self.angle_pins = dict(angle_pins or {})   # input name -> Fraction w = tan(q/8)
+        self.angle_pins = dict(angle_pins or {})   # input name -> (Fraction w, L0) with w = tan(q/(2 L0))
         self.pins = dict(pins or {})               # input name -> exact Fraction (overrides seed)
         self.maxL = maxL
         self.memo = {}                 # node id -> poly
@@ -98,6 +98,8 @@ class Encoder:
         self.defs = {}                 # var index -> list[Constraint] (defining constraints)
         self.assumptions = []          # side conditions introduced (text)
         self.inv_cache = {}
+        self.inv_den = {}
+        self.inv_order = []
         self.root_cache = {}
         self.uf_cache = {}
         self.atoms = {}                # atom key -> dict(L=, S=, C=, exact=(s,c)|None, seed=float)
@@ -213,6 +215,17 @@ class Encoder:
             raise EncodeError("division by exact zero")
         if P.is_const(p):
             return P.const(1 / P.const_val(p))
+        # algebraic constant A + B*R (single square-root variable with constant radicand): rationalise
+        vs = self.ring.vars_of(p)
+        if len(vs) == 1:
+            (rv,) = vs
+            rr = getattr(self, "root_rad", {}).get(rv)
+            if rr is not None and rr[0] == 2 and P.is_const(rr[1]) and self.ring.degree_in(p, rv) == 1:
+                A = p.get((), Fraction(0))
+                B = p.get(((rv, 1),), Fraction(0))
+                nrm = A * A - B * B * P.const_val(rr[1])
+                if nrm != 0:
+                    return {k2: v2 for k2, v2 in (((), A / nrm), (((rv, 1),), -B / nrm)) if v2}
         content, prim = P.primitive(p)
         k = P.key(prim)
         vi = self.inv_cache.get(k)
@@ -222,6 +235,8 @@ class Encoder:
             den = self.ring.evalf(prim, self.vals)
             self.vals[vi] = 1.0 / den if den else math.inf
             self.defs[vi] = [Constraint(1, P.sub(self.ring.mul(prim, self.ring.v(vi)), P.const(1)), "I*den=1")]
+            self.inv_den[vi] = prim
+            self.inv_order.append(vi)
             self.stats["inv_vars"] += 1
         return P.scale(self.ring.v(vi), 1 / content)
 
@@ -251,10 +266,14 @@ class Encoder:
             self.root_cache[k] = vi
             x = self.ring.evalf(rad, self.vals)
             self.vals[vi] = math.sqrt(x) if n == 2 else math.copysign(abs(x) ** (1.0 / 3), x)
-            d = [Constraint(1, P.sub(self.ring.pow(self.ring.v(vi), n), rad), "R^%d=rad" % n)]
+            d = [Constraint(1, P.sub({((vi, n),): Fraction(1)}, rad), "R^%d=rad" % n)]
             if n == 2:
                 d.append(Constraint(3, self.ring.v(vi), "R>=0"))
+                d.append(Constraint(3, rad, "rad>=0"))
+                self.ring.add_square_rule(vi, rad)
             self.defs[vi] = d
+            self.root_rad = getattr(self, "root_rad", {})
+            self.root_rad[vi] = (n, rad)
             self.stats["root_vars"] += 1
         return P.scale(self.ring.v(vi), s)
 
@@ -389,13 +408,12 @@ class Encoder:
             name = key[1]
             seed = self.t.input_by_name[name][3]
             base = sanitize(name) + ("_d%d" % L if L > 1 else "")
-            if not self.is_free(name) and name in self.angle_pins and L in (1, 2, 4):
-                w = self.angle_pins[name]
-                s4, c4 = 2 * w / (1 + w * w), (1 - w * w) / (1 + w * w)       # q/4
-                s, c = s4, c4
-                for _ in range({4: 0, 2: 1, 1: 2}[L]):
-                    s, c = 2 * s * c, c * c - s * s
-                at = dict(L=L, exact=(P.const(s), P.const(c)), seed=seed / L)
+            if not self.is_free(name) and name in self.angle_pins and self.angle_pins[name][1] % L == 0:
+                w, L0 = self.angle_pins[name]           # w = tan(q / (2 L0)): exact (sin,cos) of q/L0
+                s, c = 2 * w / (1 + w * w), (1 - w * w) / (1 + w * w)
+                ss, cc = P.const(s), P.const(c)
+                ss, cc = self._multiple(ss, cc, L0 // L)
+                at = dict(L=L, exact=(ss, cc), seed=seed / L)
                 self.atoms[key] = at
                 return at
             if not self.is_free(name) and name in self.angle_pins:
@@ -629,6 +647,34 @@ class Encoder:
             memo[n] = t
         return memo[nid]
 
+    def clear_inverses(self, p, max_terms=None):
+        """multiply p by powers of the inverse variables' denominators until no inverse variable is left.
+        Returns (q, denominators_used): p = 0  <=>  q = 0 given every I_k * den_k = 1."""
+        R = self.ring
+        used = []
+        for vi in reversed(self.inv_order):
+            d = R.degree_in(p, vi)
+            if d == 0:
+                continue
+            den = self.inv_den[vi]
+            used.append(vi)
+            pw = [P.const(1)]
+            for _ in range(d):
+                pw.append(R.mul(pw[-1], den))
+            out = {}
+            for m, c in p.items():
+                e = 0
+                rest = []
+                for (v, ex) in m:
+                    if v == vi:
+                        e = ex
+                    else:
+                        rest.append((v, ex))
+                t = R.mul({tuple(rest): c}, pw[d - e])
+                out = P.add(out, t)
+            p = out
+        return p, used
+
     # ------------------------------------------------------------------ outputs, path condition
     def out(self, name):
         o = self.t.outputs[name]
@@ -675,8 +721,10 @@ class Encoder:
                 if tv is None:
                     out.append((idx, cc))
                 elif not tv:
-                    # decided differently on exact pinned values than on the double seed: boundary case
-                    out.append((idx, cc))
+                    # the literal no longer mentions a variable and is false in exact arithmetic: the two sides are
+                    # equal over the reals and differ only by rounding in the double execution (e.g. pivot ties).
+                    # The executed path is kept (it is what the real code did); the literal is dropped and counted.
+                    self.stats["literals_tied_in_exact_arithmetic"] = self.stats.get("literals_tied_in_exact_arithmetic", 0) + 1
         return out
 
     def closure(self, polys):
